@@ -399,6 +399,14 @@ def run(ctx, driver):
     # ---------------- HTTP/2 -------------------------------------------------------------------
     n2 = 300 if ctx.quick else 4000
     groups2 = [[gen_request(rng, malformed_rate=0.1) for _ in range(rng.choice([1, 2, 3]))] for _ in range(n2)]
+    # corpus (runs on every seed): a request h2 rejects while encoding it, between two requests whose headers share HPACK entries
+    groups2.insert(0, [
+        {"method": b"POST", "url": b"http://example.com/a", "target_ext": None, "kind": "bytes", "chunks": [b"x"],
+         "headers": [(b"x-first", b""), (b"x-token", b"")]},
+        {"method": b"OPTIONS", "url": b"http://example.com/b", "target_ext": b"", "kind": "bytes", "chunks": [b"y"],
+         "headers": [(b"User-Agent", b"ua"), (b"Cookie", b"c=1")]},
+        {"method": b"POST", "url": b"http://example.com/c", "target_ext": None, "kind": "bytes", "chunks": [b""],
+         "headers": [(b"x-token", b""), (b"X-Token", b""), (b"x-token", b"v")]}])
     lines, meta = [], []
     for g in groups2:
         for r in g:
@@ -423,7 +431,7 @@ def run(ctx, driver):
             dist["h2:outcome:" + o["outcome"]] += 1
             distinct.add(("h2", r["method"], r["url"], r["target_ext"], tuple(r["headers"]), tuple(r["chunks"]), r["kind"]))
             payload = {"property": ID, "proto": "h2", "request": {k: repr(v)[:300] for k, v in r.items()}, "outcome": o["outcome"],
-                       "server_saw": repr(o["streams"])[:800], "server_window": win}
+                       "server_saw": repr(o["streams"])[:800], "server_window": win, "group": repr(g)}
             fails = []
             if o["outcome"].startswith("error:LocalProtocolError"):
                 if o["streams"]:
